@@ -75,6 +75,9 @@ type VerifFleet struct {
 	FaultMutatingOnly bool
 	// environment steps between calls
 	Havoc bool
+	// Eager: fair deterministic environment — before every GTID read every running IO thread has
+	// retrieved everything its (alive) source executed and every running SQL thread has applied it
+	Eager bool
 	// Checkpoint is called after every mutating statement took effect (or failed).
 	Checkpoint func(host, stmt string)
 	// Before is called when a mutating statement arrives, before it takes effect.
@@ -180,6 +183,23 @@ func (f *VerifFleet) fault(host, stmt string, mutating bool) (error, bool) {
 
 // havoc: spontaneous environment steps that mysync does not control.
 func (f *VerifFleet) havoc() {
+	if f.Eager {
+		for pass := 0; pass < 2; pass++ {
+			for _, h := range f.Hosts {
+				s := f.Servers[h]
+				if !s.IsReplica || !s.Alive {
+					continue
+				}
+				if src := f.Servers[s.Source]; src != nil && src.Alive && s.IORunning {
+					s.Retrieved |= src.Executed
+				}
+				if s.SQLRunning {
+					s.Executed |= s.Retrieved
+				}
+			}
+		}
+		return
+	}
 	if !f.Havoc {
 		return
 	}
